@@ -1074,6 +1074,25 @@ class Crystal(object):
                                                 trans,
                                                 cartrot,
                                                 indexmap))
+        # a cell that is not primitive (noreduce) has internal translations: every rotation then comes with
+        # several translations, and all of them are needed for the operations to form a group
+        atomindex = min(range(len(self.basis)), key=lambda c: len(self.basis[c]))
+        for ub in self.basis[atomindex][1:]:
+            t = inhalf(ub - self.basis[atomindex][0])
+            tmap = []
+            for atomlist, spinlist in zip(self.basis, spins):
+                maplist = [next((j for j, (uj, sj) in enumerate(zip(atomlist, spinlist))
+                                 if np.allclose(sj, si, atol=self.threshold) and
+                                 np.allclose(inhalf(uj - ui - t), 0, atol=self.threshold)), None)
+                           for ui, si in zip(atomlist, spinlist)]
+                if None in maplist: break
+                tmap.append(tuple(maplist))
+            else:
+                groupops += [GroupOp(g.rot, inhalf(g.trans + t), g.cartrot,
+                                     tuple(tuple(tm[i] for i in gm) for tm, gm in zip(tmap, g.indexmap)))
+                             for g in groupops if not any(np.array_equal(g.rot, h.rot) and
+                                                          np.allclose(inhalf(g.trans + t - h.trans), 0, atol=self.threshold)
+                                                          for h in groupops)]
         return frozenset(groupops)
 
     def strain(self, eps):
